@@ -312,6 +312,14 @@ func (w *World) VerifyWith(u *Unit, classes map[string][]string) (res *UnitResul
 				}
 				anyK = smt.Or(anyK, kenv.evalBool(ke))
 			}
+			if anyK.IsTrue() {
+				// the whole obligation is a recorded finding: nothing remains to be proved under "not K"
+				o2 := *o
+				o2.Name = o.Name + "|known"
+				o2.Kind = "known"
+				out = append(out, &o2)
+				continue
+			}
 			anyK = e.ctx.Name("K", anyK)
 			o1 := *o
 			o1.PC = append(append([]smt.Term(nil), o.PC...), smt.Not(anyK))
